@@ -1009,9 +1009,10 @@ namespace hs
         if (have_caps && !fired)
         {
             auto cap1 = S.o->reading(0);
-            if (c.kind == K_POOL && S.o->owner >= OWNER_FIRST)
+            if (c.kind == K_POOL && S.o->owner >= OWNER_FIRST && (S.successes % 16 == 1 || S.successes < 64))
             {
                 // what a pool calls free cannot be more than what it holds (minus what is handed out)
+                // (a sweep over the live set: judged for the first requests and every 16th after that)
                 std::size_t held = 0, out = 0;
                 for (auto& b : heap.blocks_of(S.o->owner))
                     held += b.second;
